@@ -1284,7 +1284,7 @@ func c03ForeignSubs(c *fw.Ctx, i int, hk string) {
 		return
 	}
 	defer e.stop()
-	r := c.Rng
+	_ = c.Rng
 	e.desc = fmt.Sprintf("foreign-subscribers holder=%s", hk)
 	c.Describe("%s", e.desc)
 	c.Cell("foreign-subs/%s", hk)
@@ -1336,7 +1336,7 @@ func c03ForeignSubs(c *fw.Ctx, i int, hk string) {
 		e.logf("foreign %s subscriber joined (admitted=%v)", kind, ok)
 		h.burst()
 		e.checkDelivered(h, all, "after a foreign "+kind+" subscriber joined")
-		switch r.Intn(3) {
+		switch (round + i) % 3 { // every way at least once per case
 		case 0:
 			closeFn()
 			e.logf("foreign %s subscriber left", kind)
@@ -1349,7 +1349,18 @@ func c03ForeignSubs(c *fw.Ctx, i int, hk string) {
 			closeFn()
 		default:
 			// kick ids that do not belong here: a stale one, a made-up one, the wrong family
-			for _, id := range append(stale, "RTMPPUBSUB999999", "FLVSUB0", "PSPUB1", "RTSPPUB77", "garbage") {
+			ids := append(stale, "RTMPPUBSUB999999", "FLVSUB0", "PSPUB1", "RTSPPUB77", "garbage", "RTMPPULL999999", "RTSPPULL1", "RTMPPULL0", "RTMPPUSH1")
+			if h.kind == "pull" && h.sid != "" {
+				// the pull family with a neighbouring number (an earlier / later pull of the server)
+				pre := strings.TrimRight(h.sid, "0123456789")
+				var n int
+				fmt.Sscanf(h.sid[len(pre):], "%d", &n)
+				ids = append(ids, fmt.Sprintf("%s%d", pre, n+1), fmt.Sprintf("%s%d", pre, n+7))
+				if n > 0 {
+					ids = append(ids, fmt.Sprintf("%s%d", pre, n-1))
+				}
+			}
+			for _, id := range ids {
 				kickID(id)
 			}
 			e.logf("stale/foreign ids kicked")
